@@ -395,6 +395,7 @@ func (c *Context) ContentType(request *http.Request) (string, string, *http.Requ
 		return "", "", nil, err
 	}
 	rCtx = stdContext.WithValue(rCtx, ctxContentType, &contentTypeValue{mt, cs})
+	verifStage("ctype", request, mt)
 	return mt, cs, request.WithContext(rCtx), nil
 }
 
@@ -420,6 +421,7 @@ func (c *Context) RouteInfo(request *http.Request) (*MatchedRoute, *http.Request
 
 	if route, ok := c.LookupRoute(request); ok {
 		rCtx = stdContext.WithValue(rCtx, ctxMatchedRoute, route)
+		verifStage("route", request, route)
 		return route, request.WithContext(rCtx), ok
 	}
 
@@ -441,6 +443,7 @@ func (c *Context) ResponseFormat(r *http.Request, offers []string) (string, *htt
 	if format != "" {
 		c.debugLogf("[%s %s] set response format %q in context", r.Method, r.URL.Path, format)
 		r = r.WithContext(stdContext.WithValue(rCtx, ctxResponseFormat, format))
+		verifStage("format", r, format)
 	}
 	c.debugLogf("[%s %s] negotiated response format %q", r.Method, r.URL.Path, format)
 	return format, r
@@ -480,6 +483,7 @@ func (c *Context) Authorize(request *http.Request, route *MatchedRoute) (interfa
 		}
 		return nil, nil, errors.Unauthenticated("invalid credentials")
 	}
+	verifStage("alt", request, route)
 	if route.Authorizer != nil {
 		if err := route.Authorizer.Authorize(request, usr); err != nil {
 			if _, ok := err.(errors.Error); ok {
@@ -494,6 +498,7 @@ func (c *Context) Authorize(request *http.Request, route *MatchedRoute) (interfa
 
 	rCtx = stdContext.WithValue(rCtx, ctxSecurityPrincipal, usr)
 	rCtx = stdContext.WithValue(rCtx, ctxSecurityScopes, route.Authenticator.AllScopes())
+	verifStage("principal", request, usr, route)
 	return usr, request.WithContext(rCtx), nil
 }
 
@@ -513,6 +518,7 @@ func (c *Context) BindAndValidate(request *http.Request, matched *MatchedRoute) 
 	}
 	result := validateRequest(c, request, matched)
 	rCtx = stdContext.WithValue(rCtx, ctxBoundParams, result)
+	verifStage("bound", request, result.bound, len(result.result) == 0)
 	request = request.WithContext(rCtx)
 	if len(result.result) > 0 {
 		return result.bound, request, errors.CompositeValidationError(result.result...)
@@ -542,6 +548,7 @@ func (c *Context) Respond(rw http.ResponseWriter, r *http.Request, produces []st
 	var format string
 	format, r = c.ResponseFormat(r, offers)
 	rw.Header().Set(runtime.HeaderContentType, format)
+	verifStage("respond", r, format, route)
 
 	if resp, ok := data.(Responder); ok {
 		producers := route.Producers
